@@ -56,7 +56,7 @@ def discover():
                 if m:
                     j = i + 1
                     name = None
-                    while j < len(lines) and j < i + 8:
+                    while j < len(lines) and j < i + 16:
                         n = NAME_RE.search(lines[j])
                         if n:
                             name = n.group(1) or n.group(2)
